@@ -79,4 +79,50 @@ def cmp (op : CmpOp) (x y : ESNum) : Res Bool := do
   let b ← scaleUp y (y.exp - e).toNat
   Elastic.cmp op a.toE b.toE
 
+/-! ## a `cnl::constant<V>` operand meeting an elastic_scaled_integer (`scaled_integer/num_traits.h`)
+
+`from_value<scaled_integer<…>, constant<V>>` turns the constant into
+`scaled_integer<set_digits_t<int, max(digits<int>, used_digits(V) − trailing_bits(V))>, power<trailing_bits(V)>>`
+holding `V`: a built-in representation (int / int64 / __int128) with the trailing zero bits moved into the
+exponent.  The operators then meet an elastic representation on one side and that built-in one on the other:
+`* /` hand both representations to the elastic operator (the built-in one becomes
+`elastic_integer<digits<T>, set_width_t<T, width<Narrowest>>>`, `elastic_integer/from_value.h`); `+ −` first
+align the exponents, and the built-in representation is scaled in its own type (`num_traits/scale.h`:
+`s * power_value<T, k, 2>()`). -/
+
+/-- `trailing_bits(n)` for `n ≠ 0` (`numeric.h`), the 2-adic valuation; 0 for 0 -/
+def trailingBits : Nat → Nat → Nat
+  | 0, _ => 0
+  | f + 1, n => if n = 0 then 0 else if n % 2 = 0 then 1 + trailingBits f (n / 2) else 0
+
+/-- number of binary digits of a natural number -/
+def bitLen (n : Nat) : Nat := if n = 0 then 0 else Nat.log2 n + 1
+
+/-- `_impl::used_digits(v)` (`used_digits.h`): for negative values the digits of `-1 - v` -/
+def usedDigits (v : Int) : Nat := if v < 0 then bitLen (-1 - v).toNat else bitLen v.toNat
+
+/-- the type, exponent and representation value a constant becomes: `(T, tz, V / 2^tz)` -/
+def constOperand (v : Int) : Option (IntTy × Nat × Int) :=
+  let tz := trailingBits 200 v.natAbs
+  match setDigits true (max 31 (usedDigits v - tz)) with
+  | some t => some (t, tz, v / 2^tz)
+  | none => none
+
+/-- `x op constant<v>` (`constLeft = false`) or `constant<v> op x` -/
+def constBin (op : BinOp) (constLeft : Bool) (x : ESNum) (v : Int) : Res ESNum :=
+  match constOperand v with
+  | none => .ill "the constant needs more digits than the widest integer has"
+  | some (t, tz, s) =>
+    let mk (w : Int) (e : Int) : ESNum := ⟨t.digits, ⟨x.narrowest.bits, true⟩, e, w⟩
+    let go (c : ESNum) : Res ESNum := if constLeft then binOp op c x else binOp op x c
+    match op with
+    | .add | .sub =>
+      if (tz : Int) > x.exp then
+        let k := ((tz : Int) - x.exp).toNat
+        if k ≥ t.digits then .ill "power_value: attempted operation will result in overflow" else do
+          let w ← cBin .mul (t, s) (t, 2^k)
+          go (mk w.2 x.exp)
+      else go (mk s tz)
+    | _ => go (mk s tz)
+
 end Cnl.ElasticScaled
